@@ -213,7 +213,8 @@ class DAGRunConcurrentManager(DAGRunManagerLike):
                     )
 
         else:
-            kwargs = self.ctx.input_kwargs
+            # The caller's dict must not be changed by the run (additional_data may be added below)
+            kwargs = dict(self.ctx.input_kwargs)
 
         additional_data = self.dag.graph.nodes[node_id].get(NodeField.additional_data)
 
